@@ -17,7 +17,7 @@ output order: omit-tag guard, attributes left to right, then the content.
 from __future__ import annotations
 
 from .env import (EXISTS_CAUGHT, PIPE_CAUGHT, BadHtml, BadIter, BadSeq, Handler,
-                  Html, Probe, default_marker)
+                  Html, Probe, default_marker, tcall_record)
 
 
 class ModelRaise(Exception):
@@ -151,12 +151,13 @@ class Model:
             return self.error.type.__name__
         raise ValueError(k)
 
-    def translate_call(self) -> None:
+    def translate_call(self, msgid, mapping=None) -> None:
         """One call of the translation function (may be told to fail)."""
         pr = self.probe
         n = pr.count.get("T", 0)
         pr.count["T"] = n + 1
         pr.history.append("T")
+        pr.tcalls.append(tcall_record(msgid, mapping))
         do = pr.plan.get(("T", n)) or pr.plan.get(("T", "*"))
         if do is not None and do[0] == "raise":
             from .env import ZOO
@@ -202,7 +203,7 @@ class Model:
         if isinstance(v, bool) or not isinstance(v, (str, int, float)):
             # neither text nor a number nor markup: the value is offered to
             # the translation function first (which returns it unchanged)
-            self.translate_call()
+            self.translate_call(v)
             v = str(v)
         elif not isinstance(v, str):
             return str(v)
@@ -245,7 +246,8 @@ class Model:
                        ("" if v[1] is None else str(v[1])) for v in vals)
 
     # -- nodes ---------------------------------------------------------------------------
-    def node(self, n: dict, switch_state=None, via_use: bool = False) -> None:
+    def node(self, n: dict, switch_state=None, via_use: bool = False,
+             named_inner: bool = False) -> None:
         if n["t"] == "text":
             s = self.text_parts(n["parts"], esc_text)
             if s is not None:
@@ -254,13 +256,26 @@ class Model:
         if n["t"] == "code":
             self.ev(n["e"])         # a code block: evaluated, no output
             return
+        if n.get("i18n_name") and self.tr_stack and not named_inner:
+            # a named part of a message: whatever the element produces -
+            # its fallback, if its own tal:on-error handled a failure - is
+            # cut out of the message and handed over in the mapping
+            frame = self.tr_stack[-1]
+            start = len(self.out)
+            self.node(n, switch_state, via_use, named_inner=True)
+            frame["mapping"][n["i18n_name"]] = "".join(self.out[start:])
+            del self.out[start:]
+            self.out.append("${%s}" % n["i18n_name"])
+            frame["placeholder"] = True
+            return
         if n.get("define_macro") and not via_use:
             # rendered in place: an invocation of its own (no slot is
             # filled), and its tal:on-error is part of the macro
             self.frames.append({})
             self.fn_depth += 1
             try:
-                self.node(n, switch_state, via_use=True)
+                self.node(n, switch_state, via_use=True,
+                          named_inner=named_inner)
             finally:
                 self.fn_depth -= 1
                 self.frames.pop()
@@ -306,14 +321,13 @@ class Model:
             if n.get("translate"):
                 # i18n:translate="" on the element: the fallback value is
                 # passed through the translation function too
-                self.translate_call()
+                self.translate_call(fv)
             self.emit_value(fv, mode or "text")
             if tagged:
                 self.out.append("</" + n["tag"] + ">")
 
     def _named_done(self, n: dict) -> None:
-        if n.get("i18n_name") and self.tr_stack:
-            self.tr_stack[-1]["placeholder"] = True
+        pass        # (the named part is taken care of in node())
 
     def element(self, n: dict, switch_state, via_use: bool = False) -> None:
         if n.get("define_macro") and not via_use:
@@ -481,7 +495,7 @@ class Model:
             # the identity translation the message is emitted as it is.
             saved = self.out
             self.out = []
-            self.tr_stack.append({"placeholder": False})
+            self.tr_stack.append({"placeholder": False, "mapping": {}})
             try:
                 self.children(n, state)
                 msg = "".join(self.out)
@@ -491,7 +505,10 @@ class Model:
             # (a named child that completed leaves a ${name} placeholder in
             # the message id even when it rendered nothing)
             if msg.strip() or frame["placeholder"]:
-                self.translate_call()       # identity translation
+                self.translate_call(msg, frame["mapping"])
+                # identity translation: the placeholders get their values
+                for name, val in frame["mapping"].items():
+                    msg = msg.replace("${%s}" % name, val)
                 self.out.append(msg)
         else:
             self.children(n, state)
@@ -523,6 +540,7 @@ class Model:
             res["use_stack"] = self.fail_stack.get(id(res["raise"][1]), [])
             res["fail_oid"] = self.fail_oid.get(id(res["raise"][1]))
         res["history"] = list(self.probe.history)
+        res["tcalls"] = list(self.probe.tcalls)
         res["handler"] = list(self.handler.calls) if self.handler else []
         res["handled"] = self.handled
         res["guard_relevant"] = self.guard_relevant
